@@ -25,7 +25,7 @@ pub const META_C16: Meta = Meta {
 pub const META_C17: Meta = Meta {
     id: "C17",
     level: "exploration",
-    rule: "Cases: Accept-Encoding from the C16 generators (and absent, and arbitrary bytes) x gzip level 0..=9 x chunk size {1,16,4096} x method {GET, HEAD, POST} x request given as Request and as Parts x the header given as one, two or three field lines x builder call histories (earlier with_gzip_level calls overridden by the last one, with_chunk_size before or after) x small payloads of four classes. Oracle: Vary lists accept-encoding; Content-Encoding: gzip present iff should_gzip(headers) and level > 0 (the crate's own function, and on grammatical values also the C16 reference); no other Content-Encoding; after writing and dropping the writer the body is one gzip member decoding to the payload iff the header says gzip, otherwise the payload verbatim; Request and Parts agree; every non-HEAD method gets a writer. Non-trivial = weighted Accept-Encoding, or level 0 with gzip preferred; distinct by fingerprint of case.",
+    rule: "Cases: Accept-Encoding from the C16 generators (and absent, and arbitrary bytes) x gzip level 0..=9 x chunk size {1,16,4096} x method {GET, HEAD, POST} x request given as Request and as Parts x the header given as one, two or three field lines x {no earlier body, an earlier body on the same thread whose response was dropped with unflushed bytes / whose writer was aborted / that completed} x builder call histories (earlier with_gzip_level calls overridden by the last one, with_chunk_size before or after) x small payloads of four classes. Oracle: Vary lists accept-encoding; Content-Encoding: gzip present iff should_gzip(headers) and level > 0 (the crate's own function, and on grammatical values also the C16 reference); no other Content-Encoding; after writing and dropping the writer the body is one gzip member decoding to the payload iff the header says gzip, otherwise the payload verbatim; Request and Parts agree; every non-HEAD method gets a writer. Non-trivial = weighted Accept-Encoding, or level 0 with gzip preferred; distinct by fingerprint of case.",
     assumptions: &["gzip level within the documented 0..=9"],
 };
 
@@ -418,6 +418,11 @@ pub struct Case17 {
     /// further `Accept-Encoding` field lines after the first (`HeaderMap::append`)
     #[serde(default)]
     pub more_lines: Vec<Bs>,
+    /// an earlier streaming body on the same thread (same chunk size) before this one: 0 none;
+    /// 1 response dropped with unflushed bytes in the writer, then the writer dropped; 2 writer
+    /// aborted; 3 written, dropped and drained normally. Bodies must not influence each other.
+    #[serde(default)]
+    pub prior: u8,
 }
 
 struct Built {
@@ -429,6 +434,29 @@ struct Built {
 
 fn build17(c: &Case17, as_parts: bool, payload: &[u8]) -> Result<Built, String> {
     crate::panics::guard(|| {
+        if c.prior > 0 {
+            // An unrelated earlier response on this thread.
+            let req = http::Request::builder().method("GET").uri("/earlier").header("accept-encoding", if c.prior == 2 { "gzip" } else { "identity" }).body(()).unwrap();
+            let (resp, w) = http_serve::streaming_body(&req).with_chunk_size(c.chunk).build::<Bytes, HarnessError>();
+            let mut w = w.expect("writer");
+            let stale = vec![0xEEu8; c.chunk.saturating_sub(1).clamp(1, 37)];
+            let _ = w.write_all(&stale);
+            match c.prior {
+                1 => {
+                    drop(resp); // the client went away with bytes still unflushed in the writer
+                    let _ = w.flush();
+                    drop(w);
+                }
+                2 => {
+                    w.abort(HarnessError::Injected(17));
+                    drop(resp);
+                }
+                _ => {
+                    drop(w);
+                    let _ = crate::drain::drain(resp.into_body(), DrainOpts::default());
+                }
+            }
+        }
         let mut b = http::Request::builder().method(c.method.as_str()).uri("/");
         if let Some(ae) = &c.accept_encoding {
             b = b.header("accept-encoding", http::HeaderValue::from_bytes(&ae.0).unwrap());
@@ -599,6 +627,13 @@ fn c17_strategy() -> BoxedStrategy<Case17> {
             if c.accept_encoding.is_some() {
                 c.more_lines = more;
             }
+            // a third of the cases follow an earlier body on the same thread
+            c.prior = match (c.payload_len + c.level) % 9 {
+                0 => 1,
+                1 => 2,
+                2 => 3,
+                _ => 0,
+            };
             c
         })
         .boxed()
@@ -627,6 +662,7 @@ fn c17_single_line_strategy() -> BoxedStrategy<Case17> {
             chunk_last,
             write_mode,
             more_lines: vec![],
+            prior: 0,
         })
         .boxed()
 }
@@ -652,8 +688,16 @@ pub fn run_c17(cx: &Cx) -> Acc {
                         chunk_last: false,
                         write_mode: (level as u8 + chunk as u8) % 3,
                         more_lines: vec![],
+            prior: 0,
                     };
                     acc.run_case(cx, "enumerated", &c, |acc| check_c17(&c, acc));
+                    // an earlier body on the same thread must not show in this one
+                    if method == "GET" {
+                        for prior in 1..=3u8 {
+                            let c3 = Case17 { prior, ..c.clone() };
+                            acc.run_case(cx, "enumerated", &c3, |acc| check_c17(&c3, acc));
+                        }
+                    }
                     // the level set last wins: every earlier level, both call orders
                     if chunk == 16 && method != "POST" {
                         for earlier in 0..=9u32 {
@@ -685,6 +729,7 @@ pub fn run_c17(cx: &Cx) -> Acc {
                             chunk_last: false,
                             write_mode: 0,
                             more_lines: more,
+                            prior: 0,
                         };
                         acc.run_case(cx, "repeated-header", &c, |acc| check_c17(&c, acc));
                     }
@@ -708,6 +753,7 @@ pub fn run_c17(cx: &Cx) -> Acc {
             chunk_last: false,
             write_mode,
             more_lines: vec![],
+            prior: 0,
         };
         acc.run_case(cx, "large-payloads", &c, |acc| check_c17(&c, acc));
     }));
